@@ -13,7 +13,7 @@ EXPLANATION = (
     "call makes start return a negative value; on a negative return the handle is back in its not-started state, no "
     "descriptor/allocation is left, no child is left unreaped; on success the status is 'running', the stored pid is the "
     "positive fork result, the error pipe reached end-of-file; the child reports -r over the error pipe before _exit. "
-    "Not decided: which errno the kernel produces; simultaneous fault pairs beyond what all-paths coverage implies.")
+    "Not decided: which errno the kernel produces; simultaneous fault pairs beyond what all-paths coverage implies. Includes C03.P4b/P4g (what reaches exec is the directory plus argv[0] as composed) and E6 (the library never calls exit()/quick_exit(): the failed child ends with _exit).")
 ASSUMPTIONS = [
     "clang 14 parser/CFG and the fact extractor are correct",
     "libc models in sa/models.py: each fallible call either fails (returning its documented failure value) or succeeds; "
